@@ -91,6 +91,8 @@ var templates = []tmpl{
 	{name: "augment-of-an-rpc-or-action-itself", augment: true, files: []string{
 		`module m { ` + hdr("m") + ` yang-version 1.1; rpc r { input { leaf i { type string; } } } container c { action a { input { leaf j { type string; } } } %PAD } }`,
 		`module b { ` + hdr("b") + ` import m { prefix m; } augment /m:%OPPATH { leaf y { type string; } } }`}},
+	{name: "augment-whose-relative-path-leads-into-the-augment-itself", augment: true, files: []string{
+		`module m { ` + hdr("m") + ` container top { leaf a { type string; } %PAD } augment "%SELFPATH" { container c { leaf x { type string; } } leaf y { type string; } } }`}},
 	{name: "not-supported-twice-in-one-deviation", files: []string{
 		`module m { ` + hdr("m") + ` container c { leaf x { type string; } leaf y { type string; } %PAD } }`,
 		`module d { ` + hdr("d") + ` import m { prefix m; } deviation /m:c/m:x { deviate not-supported; deviate not-supported; } }`}},
@@ -158,6 +160,7 @@ func Run(j *job.Job, s *job.Sink) {
 			txt = strings.ReplaceAll(txt, "%DIGIT", digit)
 			txt = strings.ReplaceAll(txt, "%NOCASE", []string{"/m:top/m:ch/m:cont", "/m:r/m:input/m:how/m:sel", "/m:top/m:ch/m:other", "/m:top/m:ch/m:cont/m:in/.."}[r.Intn(4)])
 			txt = strings.ReplaceAll(txt, "%OPPATH", []string{"r", "c/m:a"}[r.Intn(2)])
+			txt = strings.ReplaceAll(txt, "%SELFPATH", []string{"c", ".", "c/x", "y", "./c", "c/../c"}[r.Intn(6)])
 			txt = strings.ReplaceAll(txt, "%GONE", []string{"/m:top/m:box", "/m:top"}[r.Intn(2)])
 			txt = strings.ReplaceAll(txt, "%LEAFY", []string{"lf", "ll", "ax", "ad"}[r.Intn(4)])
 			txt = strings.ReplaceAll(txt, "%EMPTYBODY", []string{"uses nothing;", "description \"nothing\";", "when \"../m:lf\";", "uses nothing; reference \"r\";", ""}[r.Intn(5)])
